@@ -145,12 +145,12 @@ Section Macros.
   Definition f_axmy (a b c : Z) := let r := gfq_mul a b in gfq_autosub r c.   (* r = a*b - c *)
   Definition f_maxpy (a b c : Z) := let r := gfq_mul a b in gfq_sub c r.      (* r = c - a*b *)
 
-  (* ---------------------------------------------------------------- array forms, gfq.inl:427-576
-     The loops are written `for (size_t i = sz; --i; ) body(i)` in the code: the index is decremented
-     BEFORE the test, so the body runs for i = sz-1, ..., 1 only, and for sz = 0 the index wraps to
-     2^64-1 and the first access is out of bounds.  `pre = true` models that loop; `pre = false`
-     models `for (size_t i = sz; i--; )` (the loop of assign(), and of the repaired code).
-     An out-of-bounds access (undefined behaviour) makes the model return None. *)
+  (* ---------------------------------------------------------------- array forms, gfq.inl:427-580
+     The loops are `for (size_t i = sz; i--; ) body(i)` (since commit acd496c; `pre = false`).  HISTORY: before that
+     repair they were written `for (size_t i = sz; --i; )`: the index is decremented BEFORE the test, so the body ran for
+     i = sz-1, ..., 1 only, and for sz = 0 the index wrapped to 2^64-1 and the first access was out of bounds; `pre = true`
+     models that loop (theorem C05_array_forms_pre_decrement_loop_refuted); the check reads the style of every function
+     from the source.  An out-of-bounds access (undefined behaviour) makes the model return None. *)
   Definition size_max : Z := 18446744073709551615.
 
   Definition upd (l : list Z) (i : Z) (v : Z) : list Z :=
@@ -221,7 +221,61 @@ Section Macros.
   Definition arr_maxpyin pre sz r (a : Z) x :=
     loop pre sz (body2r (fun ri xi => gfq_autosub ri (gfq_mul a xi)) x) r.
 
-  (* dotprod, gfq.inl:885-899: index 0 first, then `for (int i = (int)sz; --i; )` *)
+  (* ---------------------------------------------------------------- array forms with ARRAYS AS LOCATIONS (aliasing)
+     The array arguments of a call may be the same array.  A store maps location ids to arrays; a call names its array
+     arguments by location id (equal ids = same array).  One iteration of every loop body of gfq.inl:427-580 first reads its
+     element operands and only then writes r[i]:
+       operand read AFTER the macro's first write to its result   | how the body of /repo supplies it
+       ADD(c,a,b): b          SUB(c,a,b): a        MULADD(c,a1,a2,b): b  | local copy `bi` / `ai` / `yi` (commit of fix-9), scalar by value
+       AUTOSUB(c,b): b (c is read-modify-write)                         | `yi` (axmy), `tmp` (maxpyin), scalar by value
+       MUL, DIV, NEG, INV: none (`res = a + b`, `res = a - b` read before they assign)
+     so the element operands are VALUES when the macro runs (op x y old below).  HISTORY: before fix-9 add/sub/axpy/axmy passed
+     b[i] / a[i] / y[i] as lvalues; with r == that array the macro re-read its own partial result (gfq_add_c_aliases_b below). *)
+  Definition store := list (list Z).
+  Definition sget (st : store) (l : nat) : list Z := nth l st [].
+  Definition sset (st : store) (l : nat) (v : list Z) : store := firstn l st ++ v :: skipn (S l) st.
+  Definition bodyL (op : Z -> Z -> Z -> Z) (lr la lb : nat) (i : Z) (st : store) : option store :=
+    match rd (sget st la) i, rd (sget st lb) i, rd (sget st lr) i with
+    | Some x, Some y, Some old => Some (sset st lr (upd (sget st lr) i (op x y old)))
+    | _, _, _ => None
+    end.
+  Fixpoint loopL (fuel : nat) (i : Z) (body : Z -> store -> option store) (st : store) : option store :=
+    match fuel with
+    | O => None
+    | S f =>
+      if i =? 0 then Some st
+      else let i := i - 1 in
+           match body i st with
+           | None => None
+           | Some st' => loopL f i body st'
+           end
+    end.
+  Definition arrL (op : Z -> Z -> Z -> Z) (lr la lb : nat) (sz : Z) (st : store) : option store :=
+    loopL (S (length (sget st lr))) sz (bodyL op lr la lb) st.
+  (* the element operation of each of the sixteen forms: x = a[i] / x[i], y = b[i] / y[i], old = r[i]; s, t scalars *)
+  Definition arr_elem (name : Z) (s t : Z) : Z -> Z -> Z -> Z :=
+    match name with
+    | 0 => fun x y _ => gfq_mul x y | 1 => fun x _ _ => gfq_mul x s
+    | 2 => fun x y _ => gfq_div x y | 3 => fun x _ _ => gfq_div x s
+    | 4 => fun x y _ => gfq_add x y | 5 => fun x _ _ => gfq_add x s
+    | 6 => fun x y _ => gfq_sub x y | 7 => fun x _ _ => gfq_sub x s
+    | 8 => fun x _ _ => gfq_neg x | 9 => fun x _ _ => gfq_inv x
+    | 10 => fun x y _ => gfq_muladd s x y | 11 => fun x _ _ => gfq_muladd s x t
+    | 12 => fun x _ old => gfq_muladd s x old
+    | 13 => fun x y _ => gfq_autosub (gfq_mul s x) y | 14 => fun x _ _ => gfq_autosub (gfq_mul s x) t
+    | _ => fun x _ old => gfq_autosub old (gfq_mul s x)
+    end.
+  (* HISTORY (body before fix-9): _GIVARO_GFQ_ADD(c,a,b) with c and b the same lvalue - every read of b after the first write sees c *)
+  Definition gfq_add_c_aliases_b (a b : Z) : Z :=
+    if b =? 0 then a else if a =? 0 then b else
+      let c := a - b in
+      let c := wrapP c mun in
+      let c := plun c in
+      if c =? 0 then c else
+        let c := c + c in
+        wrapP c mun.
+
+  (* dotprod, gfq.inl:867-881: index 0 first, then `for (int i = (int)sz; --i; )` (sz < 2^31: `(int)sz` is not modelled beyond) *)
   Definition dot_body (a b : list Z) (i : Z) (r : list Z) : option (list Z) :=
     match rd a i, rd b i, r with
     | Some x, Some y, [acc] => let tmp := gfq_mul x y in Some [gfq_add acc tmp]
@@ -385,6 +439,12 @@ Definition arr (T : tables) (name : Z) (pre : bool) (sz : Z) (r x y : list Z) (s
   | 12 => arr_axpyin mun pl pre sz r s x
   | 13 => arr_axmy mun mo pl pre sz r s x y | 14 => arr_axmy_s mun mo pl pre sz r s x (hd 0 y)
   | _ => arr_maxpyin mun mo pl pre sz r s x
+  end.
+(* array forms on a store: the array arguments are location ids (lr, la, lb); answer = the destination array afterwards *)
+Definition arrl (T : tables) (name : Z) (sz : Z) (lr la lb : Z) (st : list (list Z)) (s t : Z) : option (list Z) :=
+  match arrL (arr_elem (t_one T) (t_mone T) (plun_of T) name s t) (Z.to_nat lr) (Z.to_nat la) (Z.to_nat lb) sz st with
+  | Some st' => Some (sget st' (Z.to_nat lr))
+  | None => None
   end.
 Definition dot (T : tables) (sz : Z) (a b : list Z) : option Z :=
   dotprod (t_one T) (plun_of T) sz a b.
